@@ -15,12 +15,16 @@
 //!   measurement lies inside the band it predicts for that case; the harness always answers `ok:1`):
 //!     within_take_bytes, within_nest, within_stream, within_rest
 //!
-//! Oracles (property text, independent of the model; constants fixed in advance):
+//! Oracles (property text, independent of the model; constants fixed in advance).  "time" is the CPU
+//! time of the measuring thread (user+system, CLOCK_THREAD_CPUTIME_ID) so that it does not depend on how
+//! busy the shared machine is; the wall-clock reading is printed next to it (`wall_us`):
 //!   peak_linear    peak heap <= A*|input| + B          (A = 8, B = 4 MiB), plus P = 1 KiB per packet
 //!                  actually present (in-memory representation of a parsed packet) and L = 24 KiB per
 //!                  container level the *caller* opened with `Message::decompress`
-//!   time_linear    wall time <= C*|input| + D          (C from the calibration run, D = 50 ms)
-//!   time_scaling   on a size series: t(n1) <= 2.5 * (n1/n0) * t(n0) once t(n1) >= 20 ms
+//!   time_linear    time <= C*|input| + D               (C = max(40 x calibrated ns/byte, 500 ns/byte), D = 100 ms;
+//!                  a run over the bound is repeated up to 4 times and the fastest is judged)
+//!   time_scaling   on a size series (each point = fastest of up to 3 runs): t(n1) <= 3 * (n1/n0) * t(n0)
+//!                  once t(n1) >= 20 ms
 //!   stream_bounded peak heap while streaming a message of any size <= the component's fixed bound
 //!   checkfirst_capped  default-mode SEIPDv1 buffers at most its configured limit
 //!   s2k_refused    Argon2 parameter sets above the documented ceiling are refused
@@ -53,7 +57,7 @@ use crate::keys;
 // the oracle constants, fixed in advance (DESIGN.md section 7, C19)
 const A: usize = 8;
 const B: usize = 4 * 1024 * 1024;
-const D: Duration = Duration::from_millis(50);
+const D: Duration = Duration::from_millis(100);
 /// fixed in-memory representation cost granted per packet actually present in the input (a parsed
 /// `Signature` / one-pass signature with its hasher is a few hundred bytes however short its body)
 const P: usize = 1024;
@@ -148,12 +152,12 @@ fn new_packet(tag: u8, body: &[u8]) -> Vec<u8> {
 }
 
 fn fmt_stats(s: &Stats) -> String {
-    format!("peak={} total={} allocs={} time_us={}", s.peak, s.total, s.count, s.time.as_micros())
+    format!("peak={} total={} allocs={} time_us={} wall_us={}", s.peak, s.total, s.count, s.time.as_micros(), s.wall.as_micros())
 }
 
 /// per-byte time constant of the oracle, from a calibration run on this machine: 40x the per-byte
 /// cost of the most allocation-heavy legitimate workload (a stream of 5-byte marker packets, each of
-/// which costs an 8 KiB packet-body buffer), but at least 200 ns/byte
+/// which costs an 8 KiB packet-body buffer), but at least 500 ns/byte
 struct Calib {
     ns_per_byte: f64,
 }
@@ -165,18 +169,49 @@ fn calibrate() -> Calib {
     }
     let mut best = f64::MAX;
     for _ in 0..3 {
-        let t0 = Instant::now();
-        let n = PacketParser::new(&data[..]).filter(|p| p.is_ok()).count();
+        let (n, st) = measure(|| PacketParser::new(&data[..]).filter(|p| p.is_ok()).count());
         assert_eq!(n, 20_000);
-        best = best.min(t0.elapsed().as_nanos() as f64 / data.len() as f64);
+        best = best.min(st.time.as_nanos() as f64 / data.len() as f64);
     }
-    Calib { ns_per_byte: (40.0 * best).max(200.0) }
+    Calib { ns_per_byte: (40.0 * best).max(500.0) }
 }
 
 impl Calib {
     fn time_bound(&self, input_len: usize) -> Duration {
         D + Duration::from_nanos((self.ns_per_byte * input_len as f64) as u64)
     }
+}
+
+/// `measure`, robust against a busy machine: a run slower than `limit` (the bound its time oracle
+/// will be held to) is repeated up to 4 more times and the fastest run is kept.  Allocation counts
+/// are deterministic, so they do not depend on which run is kept.
+fn measure_robust<T>(limit: Duration, mut f: impl FnMut() -> T) -> (T, Stats) {
+    let (mut v, mut s) = measure(&mut f);
+    let mut tries = 0;
+    while s.time > limit && tries < 4 {
+        let (v2, s2) = measure(&mut f);
+        if s2.time < s.time {
+            v = v2;
+            s = s2;
+        }
+        tries += 1;
+    }
+    (v, s)
+}
+
+/// fastest of up to `n` runs when the first one took at least `min_t` (for size series)
+fn measure_min<T>(n: usize, min_t: Duration, mut f: impl FnMut() -> T) -> (T, Stats) {
+    let (mut v, mut s) = measure(&mut f);
+    if s.time >= min_t {
+        for _ in 1..n {
+            let (v2, s2) = measure(&mut f);
+            if s2.time < s.time {
+                v = v2;
+                s = s2;
+            }
+        }
+    }
+    (v, s)
 }
 
 /// the two property oracles for one measured call
@@ -194,14 +229,14 @@ fn judge_n(ctx: &mut Ctx, cal: &Calib, site: &str, input: &str, input_len: usize
 
 /// "finishes in time linear in the input", restated on a size series: once a run is long enough to
 /// be measured reliably (>= 20 ms) its time may exceed that of the previous (smaller) size by at most
-/// 2.5x the ratio of the sizes
+/// 3x the ratio of the sizes
 fn judge_scaling(ctx: &mut Ctx, site: &str, what: &str, pts: &[(usize, Duration)]) {
     for w in pts.windows(2) {
         let ((n0, t0), (n1, t1)) = (w[0], w[1]);
         if t1 < Duration::from_millis(20) || n0 == 0 || n1 <= n0 {
             continue;
         }
-        let allowed = t0.max(Duration::from_micros(200)).as_secs_f64() * 2.5 * (n1 as f64 / n0 as f64);
+        let allowed = t0.max(Duration::from_micros(200)).as_secs_f64() * 3.0 * (n1 as f64 / n0 as f64);
         ctx.oracle(
             "time_scaling",
             site,
@@ -334,17 +369,7 @@ pub fn run_entry(e: Entry, data: &[u8]) -> String {
 /// the fastest run is kept, so that a scheduling hiccup of the (shared) machine is not reported as
 /// a property failure.  Heap numbers are identical across repetitions.
 fn measure_entry(e: Entry, data: &[u8], cal: &Calib) -> (String, Stats) {
-    let (mut out, mut s) = measure(|| run_entry(e, data));
-    let mut tries = 0;
-    while s.time > cal.time_bound(data.len()) && tries < 2 {
-        let (o2, s2) = measure(|| run_entry(e, data));
-        if s2.time < s.time {
-            out = o2;
-            s = s2;
-        }
-        tries += 1;
-    }
-    (out, s)
+    measure_robust(cal.time_bound(data.len()), || run_entry(e, data))
 }
 
 // ---------------------------------------------------------------------------------------------
@@ -370,7 +395,7 @@ fn probe_main(spec: &str) -> ! {
     };
     let stack_kib = num(3);
     let work = move || {
-        let (out, s) = measure(|| run_entry(entry, &data));
+        let (out, s) = measure_min(3, Duration::from_millis(2), || run_entry(entry, &data));
         println!("RESULT out={} size={} peak={} total={} allocs={} time_us={}", out.replace(' ', "_"), data.len(), s.peak, s.total, s.count, s.time.as_micros());
         let _ = std::io::stdout().flush();
     };
@@ -456,36 +481,39 @@ pub fn nest_sig(ver: u8, d: usize) -> Vec<u8> {
     let mut tail6: Vec<u8> = vec![0xAB, 0xCD, 16];
     tail6.extend_from_slice(&[0x5A; 16]);
     tail6.extend_from_slice(&[0, 8, 0xFF]);
-    let mut s: Vec<u8> = if ver == 4 {
-        let mut v = vec![4, 0, 1, 8, 0, 0, 0, 0];
-        v.extend_from_slice(tail4);
-        v
-    } else {
-        let mut v = vec![6, 0, 1, 8, 0, 0, 0, 0, 0, 0, 0, 0];
-        v.extend_from_slice(&tail6);
-        v
-    };
-    for _ in 0..d {
-        let mut o: Vec<u8> = Vec::with_capacity(s.len() + 48);
+    let (base_len, step) = if ver == 4 { (13usize, 19usize) } else { (34, 40) };
+    let len_of = |i: usize| base_len + step * i; // |nest ver i|
+    let mut o: Vec<u8> = Vec::with_capacity(len_of(d));
+    // prefixes, outermost first: the level that wraps `nest ver (i-1)`
+    for i in (1..=d).rev() {
+        let inner = len_of(i - 1);
         if ver == 4 {
             o.extend_from_slice(&[4, 0, 1, 8, 0, 0]);
-            o.extend_from_slice(&be16(s.len() + 6));
+            o.extend_from_slice(&be16(inner + 6));
         } else {
             o.extend_from_slice(&[6, 0, 1, 8, 0, 0, 0, 0]);
-            o.extend_from_slice(&be32(s.len() + 6));
+            o.extend_from_slice(&be32(inner + 6));
         }
         o.push(255);
-        o.extend_from_slice(&be32(s.len() + 1));
+        o.extend_from_slice(&be32(inner + 1));
         o.push(32);
-        o.extend_from_slice(&s);
+    }
+    // innermost signature: RSA, SHA-256, both areas empty
+    if ver == 4 {
+        o.extend_from_slice(&[4, 0, 1, 8, 0, 0, 0, 0]);
+    } else {
+        o.extend_from_slice(&[6, 0, 1, 8, 0, 0, 0, 0, 0, 0, 0, 0]);
+    }
+    // one tail per level (innermost included)
+    for _ in 0..=d {
         if ver == 4 {
             o.extend_from_slice(tail4);
         } else {
             o.extend_from_slice(&tail6);
         }
-        s = o;
     }
-    s
+    debug_assert_eq!(o.len(), len_of(d));
+    o
 }
 
 fn ops_packet(last: bool) -> Vec<u8> {
@@ -591,8 +619,10 @@ fn sec_take_bytes(ctx: &mut Ctx, cal: &Calib) {
         sizes.push(present + 1);
         sizes.push(present.saturating_sub(1));
         for &size in &sizes {
-            let mut src = ChunkBuf::new(&chunks);
-            let (r, s) = measure(|| guarded(|| pgp::verif_hooks::take_bytes(&mut src, size)));
+            let (r, s) = measure_robust(cal.time_bound(present.min(size.max(1))), || {
+                let mut src = ChunkBuf::new(&chunks);
+                guarded(|| pgp::verif_hooks::take_bytes(&mut src, size))
+            });
             // the BytesMut events: first allocation (with_capacity) and every realloc
             let first = s.events.first().filter(|e| !e.0).map(|e| e.1);
             let mut seq: Vec<usize> = Vec::new();
@@ -625,8 +655,10 @@ fn sec_take_bytes(ctx: &mut Ctx, cal: &Calib) {
         for chunk in [1usize << 30, 8192, 100] {
             let data = vec![7u8; n];
             let chunks: Vec<Vec<u8>> = data.chunks(chunk.max(1)).map(|c| c.to_vec()).collect();
-            let mut src = ChunkBuf::new(&chunks);
-            let (r, s) = measure(|| guarded(|| pgp::verif_hooks::rest(&mut src)));
+            let (r, s) = measure_robust(cal.time_bound(n), || {
+                let mut src = ChunkBuf::new(&chunks);
+                guarded(|| pgp::verif_hooks::rest(&mut src))
+            });
             let ok = matches!(&r, Ok(Ok(b)) if b.len() == n);
             ctx.case(format!("within_rest n={n} peak={} total={}", s.peak, s.total), "ok:1".into());
             ctx.oracle("rest_returns_all", "parsing_reader.rs BufReadParsing::rest", &format!("n={n} chunk={chunk}"), ok, &fmt_stats(&s));
@@ -649,7 +681,7 @@ fn sec_mpi(ctx: &mut Ctx, cal: &Calib) {
         for present in [0usize, 1, need.saturating_sub(1), need, need + 3] {
             let mut data = be16(b).to_vec();
             data.extend(std::iter::repeat(0xFFu8).take(present));
-            let (r, s) = measure(|| guarded(|| Mpi::try_from_reader(&data[..])));
+            let (r, s) = measure_robust(cal.time_bound(data.len()), || guarded(|| Mpi::try_from_reader(&data[..])));
             let ans = match r {
                 Ok(Ok(m)) => format!("ok:{}", m.len()),
                 Ok(Err(e)) => {
@@ -724,7 +756,7 @@ fn sec_subpackets(ctx: &mut Ctx, cal: &Calib) {
         let cut = cut.min(area.len());
         area.truncate(area.len() - cut);
         let body = sig_with_hashed_area(&area, declared - cut);
-        let (r, s) = measure(|| guarded(|| parse_sig_body(&body)));
+        let (r, s) = measure_robust(cal.time_bound(body.len()), || guarded(|| parse_sig_body(&body)));
         let ans = match &r {
             Ok(Ok(sig)) => match sig.config() {
                 Some(c) => format!("ok:{}:{}", c.hashed_subpackets.len(), c.hashed_subpackets.capacity()),
@@ -773,7 +805,7 @@ fn sec_s2k(ctx: &mut Ctx, cal: &Calib) {
                     continue; // thin the far-over-ceiling volume; the boundary region is complete
                 }
                 let s2k = StringToKey::Argon2 { salt: [7u8; 16], t, p, m_enc: m };
-                let (r, s) = measure(|| guarded(|| s2k.derive_key(b"pw", 16)));
+                let (r, s) = measure_robust(if over { D } else { Duration::from_secs(3600) }, || guarded(|| s2k.derive_key(b"pw", 16)));
                 ran += 1;
                 let accepted = matches!(r, Ok(Ok(_)));
                 ctx.case(format!("argon2_admit t={t} p={p} m={m}"), if accepted { "ok:1".into() } else { "ok:0".into() });
@@ -802,112 +834,118 @@ fn sec_s2k(ctx: &mut Ctx, cal: &Calib) {
     }
 }
 
-/// nested embedded signatures (D19)
+/// nested embedded signatures (D19, repaired by a nesting cap: deep nests must be refused quickly,
+/// with memory and time linear in the input, and without deep recursion)
 fn sec_nest(ctx: &mut Ctx, cal: &Calib, out_dir: &str) {
     let site = "packet/signature/de.rs embedded_sig (via Signature::try_from_reader)";
-    // in-process, on a thread with a generous stack, so that only heap and time are observed here
-    let depths4: Vec<usize> = if ctx.thorough() { vec![0, 1, 2, 3, 5, 10, 50, 100, 300, 1000, 2000, 3000, 3448] } else { vec![0, 1, 2, 3, 10, 100, 1000, 3448] };
-    let depths6: Vec<usize> = if ctx.thorough() { vec![0, 1, 2, 10, 100, 1000, 2500, 5000] } else { vec![0, 1, 2, 10, 100, 500, 2000] };
+    // every depth 0..=12 (whatever the cap is, cap and cap+1 are among them), then deep ones;
+    // v4 areas have 16-bit lengths (depth <= 3448), v6 areas 32-bit lengths
+    let mut depths4: Vec<usize> = (0..=12).collect();
+    depths4.extend(if ctx.thorough() { vec![16, 50, 100, 300, 1000, 2000, 3000, 3447, 3448] } else { vec![16, 100, 1000, 3448] });
+    let mut depths6: Vec<usize> = (0..=12).collect();
+    depths6.extend(if ctx.thorough() { vec![16, 100, 1000, 2500, 5000, 20_000, 100_000] } else { vec![16, 100, 500, 2000, 20_000] });
     for (ver, depths) in [(4u8, depths4), (6u8, depths6)] {
         let mut series: Vec<(usize, Duration)> = Vec::new();
+        let mut accepted_upto: Option<usize> = None;
+        let mut monotone = true;
         for d in depths {
             let body = nest_sig(ver, d);
+            // on a thread of the default size (2 MiB): a parser that recursed with the nesting would die here
             let b2 = body.clone();
+            let limit = cal.time_bound(body.len());
             let h = std::thread::Builder::new()
-                .stack_size(1 << 30)
-                .spawn(move || measure(|| guarded(|| parse_sig_body(&b2).map(|s| s.config().map(|c| c.unhashed_subpackets.len())))))
+                .spawn(move || measure_robust(limit, || guarded(|| parse_sig_body(&b2).map(|s| s.config().map(|c| c.unhashed_subpackets.len())))))
                 .expect("spawn");
             let Ok((r, s)) = h.join() else {
                 ctx.oracle("no_crash", site, &format!("nest ver={ver} d={d}"), false, "thread died");
                 continue;
             };
             let ok = matches!(r, Ok(Ok(_)));
-            ctx.case(format!("nest ver={ver} d={d}"), format!("ok:{}:{}", cksum(&body), if ok { 1 } else { 0 }));
-            ctx.case(format!("within_nest ver={ver} d={d} peak={} total={}", s.peak, s.total), "ok:1".into());
+            // the model-independent part of "refused beyond the cap": acceptance is downward closed
+            if ok {
+                if accepted_upto.map(|a| a + 1 != d).unwrap_or(d != 0) && d <= 12 {
+                    monotone = false;
+                }
+                accepted_upto = Some(d);
+            }
+            // the model builds the same witness only up to a few thousand levels (its list append is quadratic)
+            if d <= 5000 {
+                ctx.case(format!("nest ver={ver} d={d}"), format!("ok:{}:{}", cksum(&body), if ok { 1 } else { 0 }));
+                ctx.case(format!("within_nest ver={ver} d={d} peak={} total={}", s.peak, s.total), "ok:1".into());
+            }
             let input = format!("nest ver={ver} d={d} |input|={}", body.len());
             judge_n(ctx, cal, site, &input, body.len(), 1, 0, &s);
+            if d >= 64 {
+                // "deeply repeated structures": a nest this deep is refused, and refusing it costs
+                // no more than a few copies of the input
+                ctx.oracle("deep_nest_refused_cheaply", site, &input, !ok && s.peak <= 16 * body.len() + 65536, &format!("accepted={ok} {}", fmt_stats(&s)));
+            }
             series.push((body.len(), s.time));
-            ctx.stat(&format!("nest:v{ver}"));
+            ctx.stat(&format!("nest:v{ver}:{}", if ok { "accepted" } else { "refused" }));
             if d >= 1000 {
-                ctx.note(&format!("D19 measurement: nest ver={ver} depth={d} |input|={} {}", body.len(), fmt_stats(&s)));
+                ctx.note(&format!("nest ver={ver} depth={d} |input|={} accepted={ok} {}", body.len(), fmt_stats(&s)));
             }
         }
+        ctx.oracle("nest_acceptance_downward_closed", site, &format!("nest ver={ver} depths 0..=12"), monotone && accepted_upto.is_some(), &format!("deepest accepted: {accepted_upto:?}"));
+        ctx.note(&format!("nest ver={ver}: deepest accepted nesting = {accepted_upto:?}"));
         judge_scaling(ctx, site, &format!("nest ver={ver}"), &series);
     }
     // the other entry points reach the same code
     for e in [Entry::PacketParser, Entry::DetachedSig, Entry::Message, Entry::PublicKey] {
-        let d = 1500;
-        let pk = new_packet(2, &nest_sig(4, d));
-        let mut data = pk.clone();
-        if e == Entry::Message {
-            data.extend(literal_packet(b"x"));
-        }
-        if e == Entry::PublicKey {
-            // a certificate whose user id carries the nested signature as a (bogus) certification
-            let mut rng = ChaCha8Rng::seed_from_u64(77);
-            let k = keys::ed25519_x25519(&mut rng, KeyVersion::V4);
-            let Ok(pb) = k.to_public_key().to_bytes() else { continue };
-            // primary key packet + user id packet, then our signature
-            let mut src = &pb[..];
-            let mut used = 0usize;
-            for _ in 0..2 {
-                let before = src.len();
-                let mut pp = PacketParser::new(&mut src);
-                if let Some(Ok(mut b)) = pp.next_ref() {
-                    let _ = drain(&mut b);
+        for d in [3usize, 4, 5, 6, 1500] {
+            let pk = new_packet(2, &nest_sig(4, d));
+            let mut data = pk.clone();
+            if e == Entry::Message {
+                data.extend(literal_packet(b"x"));
+            }
+            if e == Entry::PublicKey {
+                // a certificate whose user id carries the nested signature as a (bogus) certification
+                let mut rng = ChaCha8Rng::seed_from_u64(77);
+                let k = keys::ed25519_x25519(&mut rng, KeyVersion::V4);
+                let Ok(pb) = k.to_public_key().to_bytes() else { continue };
+                // primary key packet + user id packet, then our signature
+                let mut src = &pb[..];
+                let mut used = 0usize;
+                for _ in 0..2 {
+                    let before = src.len();
+                    let mut pp = PacketParser::new(&mut src);
+                    if let Some(Ok(mut b)) = pp.next_ref() {
+                        let _ = drain(&mut b);
+                    }
+                    drop(pp);
+                    used += before - src.len();
                 }
-                drop(pp);
-                used += before - src.len();
+                data = pb[..used].to_vec();
+                data.extend_from_slice(&pk);
             }
-            data = pb[..used].to_vec();
-            data.extend_from_slice(&pk);
-        }
-        let d2 = data.clone();
-        let h = std::thread::Builder::new().stack_size(1 << 30).spawn(move || measure(|| run_entry(e, &d2))).expect("spawn");
-        if let Ok((out, s)) = h.join() {
-            judge_n(ctx, cal, e.site(), &format!("nest ver=4 d={d} entry={e:?} out={out}"), data.len(), 3, 0, &s);
+            let d2 = data.clone();
+            let limit = cal.time_bound(data.len());
+            let h = std::thread::Builder::new().spawn(move || measure_robust(limit, || run_entry(e, &d2))).expect("spawn");
+            match h.join() {
+                Ok((out, s)) => judge_n(ctx, cal, e.site(), &format!("nest ver=4 d={d} entry={e:?} out={out}"), data.len(), 3, 0, &s),
+                Err(_) => ctx.oracle("no_crash", e.site(), &format!("nest ver=4 d={d} entry={e:?}"), false, "thread died"),
+            }
         }
     }
-    // stack: how deep can the nesting be before a thread of the usual size dies?  (child process;
-    // v4 areas have 16-bit lengths, so at most depth 3448; v6 areas have 32-bit lengths)
-    let mut report = Vec::new();
-    for (stack_kib, label) in [(2048usize, "2 MiB (std::thread default)"), (8192, "8 MiB (main thread default)")] {
-        let ver = 6u8;
-        let cap = ctx.pick(16384, 65536);
-        let (mut lo, mut hi) = (0usize, 256usize);
-        let mut crashed = false;
-        while hi <= cap {
-            let r = run_probe(&format!("nest {ver} {hi} {stack_kib} pp"), out_dir);
-            if r.crashed.is_some() {
-                crashed = true;
-                break;
+    // stack: very deep nests in a child process, on a 2 MiB thread and on the main thread
+    for (stack_kib, label) in [(2048usize, "2 MiB (std::thread default)"), (0, "main thread")] {
+        let mut deepest = 0;
+        for d in [1024usize, 16_384, ctx.pick(65_536, 1_000_000)] {
+            let r = run_probe(&format!("nest 6 {d} {stack_kib} pp"), out_dir);
+            ctx.oracle(
+                "no_crash",
+                site,
+                &format!("nest ver=6 d={d} stack_kib={stack_kib} |input|={}", 34 + 40 * d + 6),
+                r.crashed.is_none(),
+                &format!("PacketParser over one signature packet: {}", r.crashed.clone().unwrap_or_default()),
+            );
+            if r.crashed.is_none() {
+                deepest = d;
+                let s = Stats { peak: r.peak, total: r.total, count: 0, time: Duration::from_micros(r.time_us as u64), wall: Duration::from_micros(r.time_us as u64), events: vec![] };
+                judge_n(ctx, cal, site, &format!("nest ver=6 d={d} stack_kib={stack_kib} (child) out={}", r.out), r.size, 1, 0, &s);
             }
-            lo = hi;
-            hi *= 2;
         }
-        if !crashed {
-            report.push(format!("{label}: no crash up to depth {lo}"));
-            ctx.oracle("no_crash", site, &format!("nest ver={ver} d={lo} stack_kib={stack_kib}"), true, "");
-            continue;
-        }
-        while hi - lo > ctx.pick(32, 4) {
-            let mid = (lo + hi) / 2;
-            let r = run_probe(&format!("nest {ver} {mid} {stack_kib} pp"), out_dir);
-            if r.crashed.is_some() { hi = mid } else { lo = mid }
-        }
-        let size = nest_sig(ver, hi).len() + 6;
-        let r = run_probe(&format!("nest {ver} {hi} {stack_kib} pp"), out_dir);
-        report.push(format!("{label}: survives depth {lo}, dies at depth {hi} (|input|={size} bytes): {}", r.crashed.clone().unwrap_or_default()));
-        ctx.oracle(
-            "no_crash",
-            site,
-            &format!("nest ver={ver} d={hi} stack_kib={stack_kib} |input|={size}"),
-            r.crashed.is_none(),
-            &format!("PacketParser over one signature packet: {}", r.crashed.unwrap_or_default()),
-        );
-    }
-    for l in report {
-        ctx.note(&format!("D19 stack: {l}"));
+        ctx.note(&format!("nest stack probe, {label}: no crash up to depth {deepest}"));
     }
 }
 
@@ -1140,7 +1178,7 @@ fn sec_repeated(ctx: &mut Ctx, cal: &Calib, out_dir: &str) {
             let input = format!("repeated kind={kind} n={n} entry={e:?} |input|={}", r.size);
             ctx.oracle("no_crash", e.site(), &input, r.crashed.is_none(), &r.crashed.clone().unwrap_or_default());
             if r.crashed.is_none() {
-                let s = Stats { peak: r.peak, total: r.total, count: 0, time: Duration::from_micros(r.time_us as u64), events: vec![] };
+                let s = Stats { peak: r.peak, total: r.total, count: 0, time: Duration::from_micros(r.time_us as u64), wall: Duration::from_micros(r.time_us as u64), events: vec![] };
                 judge_n(ctx, cal, e.site(), &format!("{input} out={}", r.out), r.size, n + 1, 0, &s);
                 ctx.stat(&format!("repeated:{kind}:{}", r.out.split(':').next().unwrap_or("")));
             }
@@ -1159,7 +1197,7 @@ fn sec_repeated(ctx: &mut Ctx, cal: &Calib, out_dir: &str) {
             let input = format!("nested kind={kind} depth={d} |input|={}", r.size);
             ctx.oracle("no_crash", site, &input, r.crashed.is_none(), &r.crashed.clone().unwrap_or_default());
             if r.crashed.is_none() {
-                let s = Stats { peak: r.peak, total: r.total, count: 0, time: Duration::from_micros(r.time_us as u64), events: vec![] };
+                let s = Stats { peak: r.peak, total: r.total, count: 0, time: Duration::from_micros(r.time_us as u64), wall: Duration::from_micros(r.time_us as u64), events: vec![] };
                 let (packets, levels) = if kind == "ops" { (2 * d + 1, 0) } else { (d + 1, d) };
                 judge_n(ctx, cal, site, &format!("{input} out={}", r.out), r.size, packets, levels, &s);
                 ctx.stat(&format!("nested:{kind}:{}", r.out.split(':').next().unwrap_or("")));
@@ -1228,7 +1266,7 @@ fn sec_stream(ctx: &mut Ctx, cal: &Calib, out_dir: &str) {
             let flen = std::fs::metadata(&path).map(|m| m.len() as usize).unwrap_or(0);
             let limit = 1usize << 22;
             // read back (measured): file -> BufReader -> Message -> (decrypt) -> drain
-            let (res, s) = measure(|| {
+            let (res, s) = measure_min(2, Duration::from_millis(20), || {
                 guarded(|| -> Result<usize, String> {
                     let f = std::fs::File::open(&path).map_err(|e| e.to_string())?;
                     let m = Message::from_bytes(BufReader::new(f)).map_err(|e| e.to_string())?;
@@ -1361,13 +1399,7 @@ fn sec_armor(ctx: &mut Ctx, cal: &Calib) {
                     data.extend(std::iter::repeat(b'\n').take(n));
                 }
             }
-            let (out, mut s) = measure(|| run_entry(Entry::Dearmor, &data));
-            if s.time > Duration::from_millis(5) && s.time < Duration::from_secs(3) {
-                let (_, s2) = measure(|| run_entry(Entry::Dearmor, &data));
-                if s2.time < s.time {
-                    s = s2;
-                }
-            }
+            let (out, s) = measure_min(3, Duration::from_millis(2), || run_entry(Entry::Dearmor, &data));
             let input = format!("armor shape={shape} n={n}");
             judge(ctx, cal, Entry::Dearmor.site(), &format!("{input} out={out}"), data.len(), &s);
             pts.push((n, s.time.as_micros(), s.peak));
@@ -1416,7 +1448,7 @@ pub fn run(ctx: &mut Ctx) {
     let only = std::env::var("C19_ONLY").ok();
     let want = |s: &str| only.as_deref().map(|o| o.split(',').any(|x| x == s)).unwrap_or(true);
     let cal = calibrate();
-    ctx.note(&format!("calibration: time bound = {:.0} ns/byte * |input| + 50 ms; peak bound = 8*|input| + 4 MiB", cal.ns_per_byte));
+    ctx.note(&format!("calibration: time bound = {:.0} ns/byte * |input| + 100 ms; peak bound = 8*|input| + 4 MiB", cal.ns_per_byte));
     if want("take") { sec_take_bytes(ctx, &cal); }
     if want("mpi") { sec_mpi(ctx, &cal); }
     if want("sub") { sec_subpackets(ctx, &cal); }
